@@ -94,30 +94,33 @@ theorem foldl_best_le {inp : Input} (p : Nat) (f : Option Nat → Str → Option
   | nil => intro b hb q h; exact hb q h
   | cons s rest ih => intro b hb q h; exact ih (f b s) (hf b s hb) q h
 
+theorem foldl_getD_le {inp : Input} (p : Nat) (f : Option Nat → Str → Option Nat)
+    (hf : ∀ b s, (∀ q, b = some q → p ≤ q ∧ q ≤ inp.size) → ∀ q, f b s = some q → p ≤ q ∧ q ≤ inp.size)
+    (subs : List Str) (hp : p ≤ inp.size) :
+    p ≤ (subs.foldl f none).getD inp.size ∧ (subs.foldl f none).getD inp.size ≤ inp.size := by
+  have := foldl_best_le p f hf subs none (by intro q h; cases h)
+  cases hb : subs.foldl f none with
+  | none => simp; exact hp
+  | some q => simpa using this q hb
+
 theorem skipUntilPos_le {inp : Input} (subs : List Str) (p : Nat) (hp : p ≤ inp.size) :
     p ≤ L1.skipUntilPos inp subs p ∧ L1.skipUntilPos inp subs p ≤ inp.size := by
   unfold L1.skipUntilPos
-  simp only []
-  generalize hb : subs.foldl _ none = best
-  have := foldl_best_le (inp := inp) p _ (by
-    intro b s hbb q hq
-    cases hf : findFrom inp s p with
-    | none => simp only [hf] at hq; exact hbb q hq
-    | some r =>
-      simp only [hf] at hq
-      have hr := findFrom_le s p r hf
-      cases b with
-      | none => simp only [Option.some.injEq] at hq; omega
-      | some q0 =>
-        have h0 := hbb q0 rfl
-        simp only [] at hq
-        by_cases hlt : r < q0
-        · simp only [hlt, ↓reduceIte, Option.some.injEq] at hq; omega
-        · simp only [hlt, ↓reduceIte, Option.some.injEq] at hq; omega) subs none (by intro q h; cases h)
-  rw [hb] at this
-  cases best with
-  | none => simp; exact hp
-  | some q => simpa using this q rfl
+  refine foldl_getD_le p _ ?_ subs hp
+  intro b s hbb q hq
+  cases hf : findFrom inp s p with
+  | none => simp only [hf] at hq; exact hbb q hq
+  | some r =>
+    simp only [hf] at hq
+    have hr := findFrom_le s p r hf
+    cases b with
+    | none => simp only [Option.some.injEq] at hq; omega
+    | some q0 =>
+      have h0 := hbb q0 rfl
+      simp only [] at hq
+      by_cases hlt : r < q0
+      · simp only [hlt, ↓reduceIte, Option.some.injEq] at hq; omega
+      · simp only [hlt, ↓reduceIte, Option.some.injEq] at hq; omega
 
 theorem find?_mem_pred {α} {p : α → Bool} {l : List α} {a : α} (h : l.find? p = some a) : p a = true :=
   List.find?_some h
@@ -128,11 +131,13 @@ theorem optMatchOnce_le (g : Grammar) {inp : Input} (alts : List Alt) (p q : Nat
   simp only [] at h
   split at h
   · rename_i s hs
-    have := startsWithAt_le s p (find?_mem_pred hs)
+    have h1 := find?_mem_pred hs
+    have := startsWithAt_le s p h1
     simp only [Option.some.injEq] at h; omega
   · split at h
     · rename_i s hs
-      have := startsWithAtCI_le s p (find?_mem_pred hs)
+      have h1 := find?_mem_pred hs
+      have := startsWithAtCI_le s p h1
       simp only [Option.some.injEq] at h; omega
     · cases hg : inp[p]? with
       | none => simp [hg] at h
